@@ -916,6 +916,12 @@ def ref(f, v):
 def main():
     start = int(sys.argv[1]) if len(sys.argv) > 1 else 0
     jobs = [(f, k) for f in KINDS for k in VAL]
+    if start == 0:
+        # searchsorted on non-finite values: the result stays inside [0, len]  (first: the unchecked kinds at the
+        # end of the list may corrupt this process)
+        t = torch.tensor([0., .5, 1.])
+        r = torch.searchsorted(t, torch.tensor([float("nan"), float("inf"), -float("inf")]), right=True).tolist()
+        print(json.dumps({"searchsorted": r}), flush=True)
     for i in range(start, len(jobs)):
         f, k = jobs[i]; v = VAL[k]
         print(json.dumps({"start": i, "kind": f.__name__, "fault": k}), flush=True)
@@ -935,10 +941,6 @@ def main():
             except Exception as e:
                 res = "raises:" + type(e).__name__
         print(json.dumps({"done": i, "kind": f.__name__, "fault": k, "res": res}), flush=True)
-    # searchsorted on non-finite values: the result stays inside [0, len]
-    t = torch.tensor([0., .5, 1.])
-    r = torch.searchsorted(t, torch.tensor([float("nan"), float("inf"), -float("inf")]), right=True).tolist()
-    print(json.dumps({"searchsorted": r}), flush=True)
     print(json.dumps({"finished": len(jobs)}), flush=True)
 main()
 '''
